@@ -98,7 +98,35 @@ def main():
             ok = None
         return common(e, rd, out, 'SignHashed', nil, ok)
 
-    for fn in (run_gen, run_sign):
+    def run_wrapper(which):
+        def run(e):
+            d, priv = int_input(e, 'd', 32, 1, N - 2)
+            rd = sm2model.new_reader(e, maxc, faults=True)
+            rd.v.fault_budget = budget
+            e.forbid_mixed = True
+            msg = e.new_slice(sym_bytes(e, 'm', 5))
+            try:
+                if which == 'SignZa':
+                    za = e.new_slice(sym_bytes(e, 'za', 32))
+                    out = e.call_outcome(SM2 + '.SignZa', [rd, priv, za, msg])
+                else:
+                    px, py = sm2model.reg_point(e, d)
+                    out = e.call_outcome(SM2 + '.Sign', [e.new_slice(sym_bytes(e, 'id', 16)), e.new_slice([ByteOf(px, j, 32) for j in range(32)]), e.new_slice([ByteOf(py, j, 32) for j in range(32)]), rd, priv, msg])
+            except models.MixedCells as mc:
+                return [(which + '.partial', '%s uses a partially filled nonce buffer (schedule %s): %s' % (which, tuple(rd.v.log), mc), tuple(rd.v.log))]
+            nil = True
+            if out.kind == 'return':
+                r, s_, err = out.values
+                nil = r.obj is None and s_.obj is None
+                res = common(e, rd, out, which, nil, lambda e2, stub: True)
+                # the wrappers must hand the failure of the digest-level function on: no error and no signature is a failure too
+                if err is None and nil:
+                    res.append((which + '.silent', '%s returns neither a signature nor an error (schedule %s)' % (which, tuple(rd.v.log)), tuple(rd.v.log)))
+                return res
+            return common(e, rd, out, which, nil, None)
+        return run
+
+    for fn in (run_gen, run_sign, run_wrapper('SignZa'), run_wrapper('Sign')):
         for r in eng.explore(fn):
             npaths += 1
             for f in r:
@@ -119,7 +147,9 @@ def main():
     def replay(what, sched):
         steps = ','.join('{%d,%d,%s}' % (w, n, 'nil' if err is None else ('io.EOF' if err == 'EOF' else 'errInjected')) for (w, n, err) in sched)
         call = {'GenerateKey': '_, x, y, err := GenerateKey(rd); out := append(append([]byte{}, x...), y...)',
-                'SignHashed': 'r, s, err := SignHashed(rd, priv, e); out := append(append([]byte{}, r...), s...)'}[what]
+                'SignHashed': 'r, s, err := SignHashed(rd, priv, e); out := append(append([]byte{}, r...), s...)',
+                'SignZa': 'r, s, err := SignZa(rd, priv, e, []byte("msg")); out := append(append([]byte{}, r...), s...); if err == nil && len(out) != 64 { t.Fatalf("SignZa returns neither a signature nor an error") }',
+                'Sign': 'px, py, _ := DerivePublic(priv); r, s, err := Sign([]byte("1234567812345678"), px, py, rd, priv, []byte("msg")); out := append(append([]byte{}, r...), s...); if err == nil && len(out) != 64 { t.Fatalf("Sign returns neither a signature nor an error") }'}[what]
         src = '''package sm2
 import ("testing"; "errors"; "io")
 var errInjected = errors.New("injected")
